@@ -407,6 +407,25 @@ fn structured() -> Vec<Spec> {
                     }
                     s.to_bytes()
                 }));
+                // chunk ids are matched case-insensitively by the loader: the same length games
+                // with the id spelled in lower / mixed case
+                if l < full {
+                    let trig2 = format!("{}:id-case", trig);
+                    v.push(spec(F::Szx, &trig2, move |r| {
+                        let mut s = base_szx(r, is128, Comp::Stored);
+                        if let Some(k) = s.find(&idc) {
+                            let fillb = r.u8();
+                            s.chunks[k].data.resize(l, fillb);
+                            let mode = r.below(3);
+                            for (i, c) in s.chunks[k].id.iter_mut().enumerate() {
+                                if mode == 0 || (mode == 1 && i % 2 == 0) || (mode == 2 && i == 3) {
+                                    *c = c.to_ascii_lowercase();
+                                }
+                            }
+                        }
+                        s.to_bytes()
+                    }));
+                }
             }
         }
     }
